@@ -84,7 +84,7 @@ func (r *RNG) Intn(n int) int {
 	return int(r.U64() % uint64(n))
 }
 func (r *RNG) Range(lo, hi int) int { return lo + r.Intn(hi-lo+1) } // inclusive
-func (r *RNG) F64() float64          { return float64(r.U64()>>11) / (1 << 53) }
+func (r *RNG) F64() float64         { return float64(r.U64()>>11) / (1 << 53) }
 func (r *RNG) Uniform(lo, hi float64) float64 {
 	return lo + (hi-lo)*r.F64()
 }
